@@ -40,11 +40,13 @@ type op struct {
 	TLS *tlsSpec `json:"tls,omitempty"`
 	H   int      `json:"h,omitempty"` // req / fork: which name of the origin the URL uses (0 = localhost, 1 = 127.0.0.1)
 	C   bool     `json:"c,omitempty"` // req: the request carries Connection: close
+	W   bool     `json:"w,omitempty"` // dialtls: the function returns its *tls.Conn wrapped in a type of its own (a pkg/tls.Conn that is not a bare *tls.Conn)
 	F   *op      `json:"f,omitempty"` // fork: what is done to the throw-away clone before its request (nil = nothing)
 }
 
 type cell struct {
 	Shape string `json:"shape"` // generator label (part of failure signatures)
+	Proxy int    `json:"proxy,omitempty"` // the proxy the "proxy" op switches on: 1 = http:// CONNECT proxy, 2 = https:// one
 	Life  string `json:"life,omitempty"` // lifecycle of the structured matrix (quick-tier stratification)
 	Spec  srvSpec `json:"server"`
 	Ops   []op   `json:"ops"`
@@ -146,6 +148,25 @@ func refAcceptable(p *pki, want *tlsSpec, o *origin, host string) (ok bool, want
 
 // specAfter: the settings after one more setter call (the documented meaning of the setters: SetTLSClientConfig
 // replaces, the others change one field of the current configuration, creating one when there is none).
+// refProxyHop: crypto/tls with the configuration that governs the first hop against the https:// proxy
+func refProxyHop(p *pki, want *tlsSpec, o *origin) (ok bool, wantSNI string) {
+	cfg := p.tlsConfig(want)
+	if cfg == nil {
+		cfg = &tls.Config{}
+	}
+	if cfg.ServerName == "" {
+		cfg.ServerName = "127.0.0.1"
+	}
+	wantSNI = cfg.ServerName
+	cfg.NextProtos = nil
+	conn, err := tls.Dial("tcp", fmt.Sprintf("127.0.0.1:%d", o.pport[2]), cfg)
+	if err != nil {
+		return false, wantSNI
+	}
+	conn.Close()
+	return true, wantSNI
+}
+
 func specAfter(cur *tlsSpec, x op) *tlsSpec {
 	if x.K == "settls" {
 		if x.TLS == nil || x.TLS.Nil {
@@ -184,6 +205,7 @@ type want struct {
 	dial  *tlsSpec // configuration of the caller-supplied SetDialTLS function (nil = none)
 	hs    *tlsSpec // configuration of the caller-supplied SetTLSHandshake function (nil = none)
 	h2c   bool     // EnableH2C in force
+	proxy bool     // SetProxyURL(the cell's proxy) in force
 }
 
 var forceName = []string{"", "1.1", "2", "3"}
@@ -194,6 +216,8 @@ func (w want) after(x op) want {
 		w.force = forceName[x.N]
 	case "h2c": // h2c concerns http:// requests only: neither the client's settings nor a caller-supplied dialler change
 		w.h2c = x.B
+	case "proxy":
+		w.proxy = x.B
 	case "dialtls":
 		w.dial = nil
 		if x.TLS != nil && !x.TLS.Nil {
@@ -212,6 +236,26 @@ func (w want) after(x op) want {
 
 // the configuration that governs TCP connections: the caller's own function when there is one (documented:
 // SetDialTLS / SetTLSHandshake are valid for HTTP/1 and HTTP/2 only), the client's settings otherwise
+// the configuration that governs the handshake with the ORIGIN on a TCP connection: through a proxy the tunnelled
+// handshake is the library's own (client's settings) or the SetTLSHandshake hook's - DialTLSContext dials the proxy
+func (w want) origin(viaProxy bool) *tlsSpec {
+	if !viaProxy {
+		return w.tcp()
+	}
+	if w.hs != nil {
+		return w.hs
+	}
+	return w.tls
+}
+
+// the configuration that governs the handshake with an https:// proxy
+func (w want) proxyHop() *tlsSpec {
+	if w.dial != nil {
+		return w.dial
+	}
+	return w.tls
+}
+
 func (w want) tcp() *tlsSpec {
 	if w.dial != nil {
 		return w.dial
@@ -232,14 +276,30 @@ func (p *pki) userConfig(t *tlsSpec, host string) *tls.Config {
 	return cfg
 }
 
-func (p *pki) userDialTLS(t *tlsSpec) func(ctx context.Context, network, addr string) (net.Conn, error) {
+// wrappedTLSConn implements pkg/tls.Conn (ConnectionState, Handshake, HandshakeContext promoted) without being a
+// bare *tls.Conn - what a utls connection or any caller's wrapper looks like to the transport
+type wrappedTLSConn struct {
+	*tls.Conn
+	note *string
+}
+
+func (p *pki) userDialTLS(t *tlsSpec, wrap bool, negotiated *[]string) func(ctx context.Context, network, addr string) (net.Conn, error) {
 	return func(ctx context.Context, network, addr string) (net.Conn, error) {
 		host, _, err := net.SplitHostPort(addr)
 		if err != nil {
 			host = addr
 		}
 		d := &tls.Dialer{Config: p.userConfig(t, host)}
-		return d.DialContext(ctx, network, addr)
+		c, err := d.DialContext(ctx, network, addr)
+		if err != nil {
+			return nil, err
+		}
+		tc := c.(*tls.Conn)
+		*negotiated = append(*negotiated, tc.ConnectionState().NegotiatedProtocol) // cells run sequentially
+		if wrap {
+			return &wrappedTLSConn{Conn: tc}, nil
+		}
+		return tc, nil
 	}
 }
 
@@ -259,7 +319,7 @@ func (p *pki) userHandshake(t *tlsSpec) func(ctx context.Context, addr string, p
 }
 
 func sameHello(a, b hello) bool {
-	return a.Quic == b.Quic && a.SNI == b.SNI && strings.Join(a.ALPN, ",") == strings.Join(b.ALPN, ",")
+	return a.Proxy == b.Proxy && a.Quic == b.Quic && a.SNI == b.SNI && strings.Join(a.ALPN, ",") == strings.Join(b.ALPN, ",")
 }
 
 func waitFor(d time.Duration, f func() bool) bool {
@@ -296,6 +356,9 @@ func runCell(p *pki, o *origin, cl cell, timeout time.Duration) (res cellResult)
 	violT := func(tag, sig, what string) {
 		res.Viol = append(res.Viol, violation{Sig: sig + "/" + cl.Shape + "/" + o.spec.Name + tag, What: what, At: len(res.Obs)})
 	}
+	var negotiated []string // ALPN results of the connections the caller-supplied dial function made (in order)
+	okQuic := [2]bool{}     // ... over HTTP/3 (CloseIdleConnections and the proxy switch leave those connections alone)
+	okSince := [2]bool{}    // a request to that name of the origin has succeeded since the connections were last dropped
 	// configuration operations (everything but clone / req / fork); false = not a configuration op
 	applyCfg := func(c *req.Client, x op) bool {
 		switch x.K {
@@ -338,8 +401,15 @@ func runCell(p *pki, o *origin, cl cell, timeout time.Duration) (res cellResult)
 			if x.TLS == nil || x.TLS.Nil {
 				c.SetDialTLS(nil)
 			} else {
-				c.SetDialTLS(p.userDialTLS(x.TLS))
+				c.SetDialTLS(p.userDialTLS(x.TLS, x.W, &negotiated))
 			}
+		case "proxy":
+			if x.B && cl.Proxy > 0 && o.spec.HTTPS { // (plain-http targets through a proxy are not modelled)
+				c.SetProxyURL(o.proxyURL(cl.Proxy))
+			} else {
+				c.SetProxy(nil)
+			}
+			c.GetTransport().CloseIdleConnections()
 		case "handshake":
 			if x.TLS == nil || x.TLS.Nil {
 				c.SetTLSHandshake(nil)
@@ -379,6 +449,18 @@ func runCell(p *pki, o *origin, cl cell, timeout time.Duration) (res cellResult)
 				refTCP, sniTCP = refAcceptable(p, w.tcp(), o, host)
 			}
 		}
+		// through a proxy: the tunnelled handshake with the origin, and the first hop to an https:// proxy
+		refTun, sniTun, refHop, sniHop := refOK, wantSNI, true, ""
+		if o.spec.HTTPS && w.proxy && cl.Proxy > 0 {
+			if w.origin(true) != w.tls {
+				refTun, sniTun = refAcceptable(p, w.origin(true), o, host)
+			}
+			if cl.Proxy == 2 {
+				refHop, sniHop = refProxyHop(p, w.proxyHop(), o)
+			}
+		}
+		nConnect := o.connectCount()
+		nNeg := len(negotiated)
 		altBefore := c.GetTransport().VerifAltSvcState(u)
 		m := o.mark()
 		cm := o.clearMark()
@@ -438,7 +520,13 @@ func runCell(p *pki, o *origin, cl cell, timeout time.Duration) (res cellResult)
 		}
 		retried := 0
 		for _, h := range o.since(m) {
-			h.SNI = normSNI(h.SNI)
+			if h.Proxy {
+				if h.SNI == "" {
+					h.SNI = "127.0.0.1" // the proxy is addressed by that literal
+				}
+			} else {
+				h.SNI = normSNI(h.SNI)
+			}
 			if bgStarted && h.Quic {
 				bg.Hellos = append(bg.Hellos, h)
 			} else if n := len(rec.Hellos); n > 0 && err != nil && sameHello(rec.Hellos[n-1], h) {
@@ -490,6 +578,45 @@ func runCell(p *pki, o *origin, cl cell, timeout time.Duration) (res cellResult)
 				viol("https-in-cleartext/wire", fmt.Sprintf("the %s was written in clear to the TLS port (first bytes %s): no handshake, no certificate checked; the client reported %s", what, cs[0], rec.Outcome))
 			}
 		}
+		if o.spec.HTTPS && ok {
+			// the first hop to an https:// proxy is governed by the settings too (the proxy's name)
+			for _, h := range rec.Hellos {
+				if h.Proxy {
+					if !refHop {
+						viol("accepted-unacceptable/proxy-hop", "the https:// proxy's certificate is unacceptable under the settings that govern the first hop, yet the request went through it")
+					}
+					if h.SNI != sniHop {
+						viol("sni/proxy-hop", fmt.Sprintf("the proxy saw server name %q, the settings say %q", h.SNI, sniHop))
+					}
+				}
+			}
+			// no handshake at all during this request, none can have been made for this authority since the
+			// connections were last dropped, and nothing would accept the origin: whose connection was that?
+			if len(rec.Hellos) == 0 && !okSince[hi] && !(rec.Outcome == "V3" && okQuic[hi]) && !refOK && !refTCP && !refTun && tag == "" {
+				viol("accepted-unacceptable/no-handshake", "the request succeeded without any handshake although no earlier request to this authority has succeeded since the connections were dropped and the origin is unacceptable under the settings: it travelled on a connection made (and verified) for another authority")
+			}
+			// a connection the caller's dial function made during this request negotiated h2: the request uses it
+			if force == "" {
+				for _, np := range negotiated[nNeg:] {
+					if np == "h2" && rec.Outcome != "V2" && !(w.proxy && cl.Proxy == 2) {
+						viol("negotiated-h2-not-used", "the connection returned by the SetDialTLS function negotiated h2 but the request was served over HTTP/"+used)
+					}
+				}
+			}
+		}
+		if o.spec.HTTPS && !ok && force == "" && !(w.proxy && cl.Proxy == 2) {
+			for _, np := range negotiated[nNeg:] {
+				if np == "h2" && rec.Outcome == "EProto" {
+					viol("negotiated-h2-not-used", "the connection returned by the SetDialTLS function negotiated h2, nothing is forced, and the request failed with a protocol error: "+rec.Detail)
+				}
+			}
+		}
+		if ok && tag == "" {
+			okSince[hi] = true
+			if rec.Outcome == "V3" {
+				okQuic[hi] = true
+			}
+		}
 		if rec.Outcome == "Cleartext" {
 			how := "no-custom-dialer"
 			if c.DialTLSContext != nil {
@@ -499,8 +626,15 @@ func runCell(p *pki, o *origin, cl cell, timeout time.Duration) (res cellResult)
 		}
 		if o.spec.HTTPS && len(rec.Hellos) > 0 {
 			stack := "tcp"
+			viaProxy := o.connectCount() > nConnect
 			if rec.Hellos[len(rec.Hellos)-1].Quic {
 				stack = "quic"
+			} else if viaProxy {
+				refOK, wantSNI = refTun, sniTun
+				stack = "tcp-tunnel"
+			} else if rec.Hellos[len(rec.Hellos)-1].Proxy {
+				refOK, wantSNI = refHop, sniHop // the request ended at the first hop
+				stack = "proxy-hop"
 			} else {
 				refOK, wantSNI = refTCP, sniTCP
 				if w.tcp() != w.tls {
@@ -557,6 +691,12 @@ func runCell(p *pki, o *origin, cl cell, timeout time.Duration) (res cellResult)
 				panic("unknown op " + x.K)
 			}
 			w = w.after(x)
+		}
+		if x.K == "closeidle" || x.K == "clone" || x.K == "proxy" { // the connections made so far are gone / out of reach
+			okSince = [2]bool{}
+			if x.K == "clone" {
+				okQuic = [2]bool{}
+			}
 		}
 		res.Obs = append(res.Obs, obsRec{Kind: "cfg"})
 	}
@@ -619,6 +759,8 @@ func coqOps(ops []op) string {
 			add(0, "ODialTLS "+coqTLS(x.TLS))
 		case "handshake":
 			add(0, "OHandshake "+coqTLS(x.TLS))
+		case "proxy":
+			add(0, "OProxy "+hk.CoqBool(x.B && true))
 		case "clone":
 			add(0, "OClone")
 		case "closeidle":
@@ -657,6 +799,8 @@ func coqFork(f *op) string {
 		return "(FkDialTLS " + coqTLS(f.TLS) + ")"
 	case "handshake":
 		return "(FkHandshake " + coqTLS(f.TLS) + ")"
+	case "proxy":
+		return "(FkProxy " + hk.CoqBool(f.B) + ")"
 	}
 	panic("fork action not expressible in the model: " + f.K)
 }
@@ -664,6 +808,10 @@ func coqFork(f *op) string {
 func coqHellos(hs []hello) string {
 	var out []string
 	for _, h := range hs {
+		if h.Proxy {
+			out = append(out, fmt.Sprintf("phello %s %s", hk.CoqStr(h.SNI), hk.CoqStrList(h.ALPN)))
+			continue
+		}
 		out = append(out, fmt.Sprintf("hello %s %s %s", hk.CoqBool(h.Quic), hk.CoqStr(h.SNI), hk.CoqStrList(h.ALPN)))
 	}
 	return hk.CoqList(out)
@@ -705,15 +853,19 @@ func coqObs(os []obsRec) string {
 	return hk.CoqList(out)
 }
 
-func coqEnv(s srvSpec) string {
+func coqEnv(s srvSpec, proxy int) string {
 	need := "None"
 	if s.NeedCert {
 		need = "(Some 3%N)"
 	}
-	return fmt.Sprintf("(mkEnv %s %s (mkSrv %s %s %s %s 1%%N %s %s))", hk.CoqBool(s.HTTPS), hk.CoqStr("localhost"),
-		hk.CoqStrList(s.ALPN), hk.CoqBool(s.H3), hk.CoqBool(s.AltSvc), hk.CoqBool(s.H2C), hk.CoqStrList(s.sans()), need)
+	px := "None"
+	if proxy > 0 && s.HTTPS {
+		px = fmt.Sprintf("(Some (mkProxy %s %s 1%%N %s))", hk.CoqBool(proxy == 2), hk.CoqStr("127.0.0.1"), hk.CoqStrList(proxySANs))
+	}
+	return fmt.Sprintf("(mkEnv %s %s (mkSrv %s %s %s %s 1%%N %s %s) %s)", hk.CoqBool(s.HTTPS), hk.CoqStr("localhost"),
+		hk.CoqStrList(s.ALPN), hk.CoqBool(s.H3), hk.CoqBool(s.AltSvc), hk.CoqBool(s.H2C), hk.CoqStrList(s.sans()), need, px)
 }
 
 func coqCase(cl cell, os []obsRec) string {
-	return fmt.Sprintf("(mkCase %s %s %s %s)", coqEnv(cl.Spec), hk.CoqStr(hostNames[1]), coqOps(cl.Ops), coqObs(os))
+	return fmt.Sprintf("(mkCase %s %s %s %s)", coqEnv(cl.Spec, cl.Proxy), hk.CoqStr(hostNames[1]), coqOps(cl.Ops), coqObs(os))
 }
